@@ -534,18 +534,26 @@ def _short(x, n=200):
 # Documents
 # --------------------------------------------------------------------------
 def obj_bytes(n, g, v, ch=None, eol=b"\n", ws=None, stream_eol=b"\n", end_eol=b"\n", length_override=None,
-              raw=None):
-    """`n g obj ... endobj` for value v (or pre-spelled bytes `raw`)."""
+              raw=None, head_sep=None):
+    """`n g obj ... endobj` for value v (or pre-spelled bytes `raw`).
+    head_sep: what stands between `obj` and the value (default: eol; b" " and, before a delimiter, b"" are valid too)."""
     ch = ch or Canon()
     if raw is not None:
         return b"%d %d obj" % (n, g) + eol + raw + eol + b"endobj" + eol
+
+    def head(body):
+        hs = eol if head_sep is None else head_sep
+        if hs == b"" and body[:1] not in b"<[(/":
+            hs = b" "
+        return b"%d %d obj" % (n, g) + hs + body
+
     if is_stream(v):
         d = dict(v[1])
         if b"Length" not in d:
             d[b"Length"] = len(v[2]) if length_override is None else length_override
-        return (b"%d %d obj" % (n, g) + eol + ser(d, ch, ws) + eol + b"stream" + stream_eol + v[2] + end_eol
+        return (head(ser(d, ch, ws)) + eol + b"stream" + stream_eol + v[2] + end_eol
                 + b"endstream" + eol + b"endobj" + eol)
-    return b"%d %d obj" % (n, g) + eol + ser(v, ch, ws) + eol + b"endobj" + eol
+    return head(ser(v, ch, ws)) + eol + b"endobj" + eol
 
 
 def xref_table(entries, eol2=b" \n"):
